@@ -674,9 +674,7 @@ class Gen:
             rest.append({"k": "gl", "label": "%s.%s" % (self.cur, glabel)})
             gmark += "(%s) " % glabel
         if self.p(0.6):
-            # (the compiler under test rejects a gather line that starts with an inline conditional or sequence:
-            # only words and prints here; richer content follows on the next lines)
-            s, t = self.lower(self.segments(False, False, "print" if self.has("print") else False))
+            s, t = self.lower(self.segments(False, False, True if self.has("choice_divert") else ("print" if self.has("print") else False)))
             rest += s + [{"k": "nl"}]
             glines.append(gmark + t)
         else:
